@@ -7,6 +7,9 @@ Families
                  tensor layouts (flat, broadcast, 0-dim) and two dtypes; oracle = mpmath.diff of the
                  textbook closed-form price (models/bs_closed.py); the implementation's own price is
                  bound to that closed form at every grid point.
+                 The same grid runs through user modules: subclasses of the 4 modules overriding ``price`` (payout
+                 multiplier) or ``price`` and ``delta``, and modules built directly on BSModuleMixin - every Greek that
+                 /repo derives from self.price must be the derivative of the subclass's price.
   bs_bound       BlackScholes(derivative) modules reading (log-moneyness, max, maturity, volatility)
                  from a scripted derivative (all |A|^T paths), Greeks called without arguments.
   programs       pfhedge.autogreek.{delta,gamma,vega,theta} on ALL pricer programs of an expression
@@ -180,6 +183,26 @@ def call_entry(entry, product, what, call, strike, lm, mm, t, v, module=None):
         if what == "price" and product == "american_binary":
             return f(lm, mm, t, v)
         return f(lm, mm, t, v, strike=strike)
+    if entry in ("gfd_module", "gfd_functional"):
+        # gamma from the DELTA formula: pfhedge.autogreek.gamma_from_delta differentiates the delta function
+        import pfhedge.autogreek as autogreek
+        if entry == "gfd_module":
+            dfn = module.delta
+        else:
+            f = getattr(F, f"bs_{product}_delta")
+            if product == "european":
+                def dfn(log_moneyness, time_to_maturity, volatility):
+                    return f(log_moneyness, time_to_maturity, volatility, call=call)
+            elif product == "european_binary":
+                def dfn(log_moneyness, time_to_maturity, volatility, strike):
+                    return f(log_moneyness, time_to_maturity, volatility, call=call, strike=strike)
+            else:
+                def dfn(log_moneyness, max_log_moneyness, time_to_maturity, volatility, strike):
+                    return f(log_moneyness, max_log_moneyness, time_to_maturity, volatility, strike=strike)
+        kw = {"log_moneyness": lm, "time_to_maturity": t, "volatility": v, "strike": strike}
+        if product in NEEDS_MAX:
+            kw["max_log_moneyness"] = mm
+        return autogreek.gamma_from_delta(dfn, **kw)
     fn = getattr(module, what)
     if product in NEEDS_MAX:
         return fn(log_moneyness=lm, max_log_moneyness=mm, time_to_maturity=t, volatility=v)
@@ -197,7 +220,84 @@ def make_module(product, call, K):
 def site_name(entry, product, what):
     if entry == "functional":
         return f"bs_{product}_{what}"
-    return f"{CLASSES[product]}.{what}"
+    if entry == "module":
+        return f"{CLASSES[product]}.{what}"
+    if entry == "gfd_module":
+        return f"autogreek.gamma_from_delta({CLASSES[product]}.delta)"
+    if entry == "gfd_functional":
+        return f"autogreek.gamma_from_delta(bs_{product}_delta)"
+    return f"{CLASSES[product]}[{entry}].{what}"
+
+
+# Greeks that a Black-Scholes module of /repo builds from the module's OWN price (super().<greek>() =
+# BSModuleMixin default = autogreek of self.price): a user subclass that overrides ``price`` inherits them and
+# they must be the derivatives of the subclass's price.  The other Greeks of /repo are analytic forms that do
+# not go through self.price (all four of BSEuropeanOption / BSEuropeanBinaryOption, the delta of
+# BSAmericanBinaryOption and BSLookbackOption): a subclass overriding only ``price`` is not required to get
+# consistent values for those, and they are skipped for subclasses.
+FROM_SELF_PRICE = {"european": (), "european_binary": (), "american_binary": ("gamma", "vega", "theta"),
+                   "lookback": ("gamma", "vega", "theta")}
+PAYOUT = 250.0
+
+
+def make_user_module(entry, product, call, K):
+    """'subclass': overrides price (payout multiplier); 'subclass_delta': overrides price and delta;
+    'mixin': a user module built directly on BSModuleMixin that only defines price (all four Greeks are the
+    mixin defaults)."""
+    import pfhedge.nn as nn
+    import pfhedge.nn.functional as F
+    from pfhedge.nn.modules.bs._base import BSModuleMixin
+    base = getattr(nn, CLASSES[product])
+    if entry == "mixin":
+        if product in NEEDS_MAX:
+            class UserModule(BSModuleMixin):
+                def price(self, log_moneyness, max_log_moneyness, time_to_maturity, volatility):
+                    f = getattr(F, f"bs_{product}_price")
+                    if product == "american_binary":
+                        return PAYOUT * f(log_moneyness, max_log_moneyness, time_to_maturity, volatility)
+                    return PAYOUT * f(log_moneyness, max_log_moneyness, time_to_maturity, volatility, strike=K)
+        else:
+            class UserModule(BSModuleMixin):
+                def price(self, log_moneyness, time_to_maturity, volatility):
+                    if product == "european":
+                        return PAYOUT * F.bs_european_price(log_moneyness, time_to_maturity, volatility, strike=K, call=call)
+                    return PAYOUT * F.bs_european_binary_price(log_moneyness, time_to_maturity, volatility, call=call)
+        return _WithStrike(UserModule(), K, product)
+
+    # explicit signatures, as a user writes them (autogreek selects the arguments by the pricer's signature)
+    if product in NEEDS_MAX:
+        class Scaled(base):
+            def price(self, log_moneyness=None, max_log_moneyness=None, time_to_maturity=None, volatility=None):
+                return PAYOUT * super().price(log_moneyness, max_log_moneyness, time_to_maturity, volatility)
+
+        class ScaledDelta(Scaled):
+            def delta(self, log_moneyness=None, max_log_moneyness=None, time_to_maturity=None, volatility=None):
+                return PAYOUT * super().delta(log_moneyness, max_log_moneyness, time_to_maturity, volatility)
+    else:
+        class Scaled(base):
+            def price(self, log_moneyness=None, time_to_maturity=None, volatility=None):
+                return PAYOUT * super().price(log_moneyness, time_to_maturity, volatility)
+
+        class ScaledDelta(Scaled):
+            def delta(self, log_moneyness=None, time_to_maturity=None, volatility=None):
+                return PAYOUT * super().delta(log_moneyness, time_to_maturity, volatility)
+    cls = ScaledDelta if entry == "subclass_delta" else Scaled
+    return cls(strike=K) if product in NEEDS_MAX else cls(call=call, strike=K)
+
+
+class _WithStrike:
+    """The mixin defaults take the strike as a keyword of the Greek (it is a parameter of autogreek, not of
+    the module): forward it so that call_entry can treat the user module like the built-in ones."""
+
+    def __init__(self, module, K, product):
+        self.module, self.K = module, K
+        self.spot_greeks = ("delta", "gamma")
+
+    def __getattr__(self, what):
+        fn = getattr(self.module, what)
+        if what in self.spot_greeks:
+            return lambda **kw: fn(strike=self.K, **kw)
+        return fn
 
 
 def subgrids(block):
@@ -236,7 +336,7 @@ def _tensors(layout, mspec, s_list, t_list, v_list, dtype):
 @family
 def bs_greeks(ctx, block):
     product, call = block["product"], block["call"]
-    entries = block.get("entries", ["functional", "module"])
+    entries = block.get("entries", ["functional", "module", "gfd_module", "gfd_functional"])
     layouts = block.get("layouts", ["flat", "broadcast", "scalar"])
     strike_kinds = block.get("strike_kinds", ["float", "tensor"])
     dtypes = block.get("dtypes", ["float64", "float32"])
@@ -261,7 +361,10 @@ def bs_greeks(ctx, block):
             fpts = [(s_list[a], (s_list[a] + mspec[1]) if mspec[0] == "off" else mspec[1], t_list[b], v_list[c])
                     for a, b, c in pts]
         for K in block["Ks"]:
-            module = make_module(product, call, K)
+            builtin = ("functional", "module", "gfd_module", "gfd_functional")
+            modules = {e: (make_module(product, call, K) if e in builtin else make_user_module(e, product, call, K))
+                       for e in entries}
+            module = modules[entries[0]]
             model = [model_point(product, call, *fp, K) for fp in fpts]
             G = {"K": K, "k_rep": f32_representable(K), "module": module, "mspec": mspec, "s": s_list, "t": t_list,
                  "v": v_list, "pts": pts, "fpts": fpts, "model": model, "product": product, "call": call,
@@ -273,8 +376,10 @@ def bs_greeks(ctx, block):
                                               tolerance(product, w, *fp, K, float(r[w]), eps))
                                              for fp, r in zip(fpts, model)], dtype=torch.float64) for w in ALL}
                 for entry in entries:
+                    G["module"] = modules[entry]
+                    G["scale"] = 1.0 if entry in builtin else PAYOUT
                     for sk in strike_kinds:
-                        if sk == "tensor" and entry == "module":
+                        if sk == "tensor" and entry != "functional":
                             continue  # module strikes are python numbers (constructor argument)
                         for layout in layouts:
                             if dname == "float32" and layout != "flat":
@@ -294,9 +399,20 @@ def bs_greeks(ctx, block):
                                     continue  # these functions have no call flag: same function as the call side
                                 if what == "price" and (layout != "flat" or (sk == "tensor" and product != "european")):
                                     continue
+                                if entry.startswith("gfd_") and (what != "gamma" or dname != "float64" or sk != "float"
+                                                                 or layout == "broadcast"):
+                                    continue
+                                if entry in ("subclass", "subclass_delta") and what != "price" and \
+                                        what not in FROM_SELF_PRICE[product] + (("delta",) if entry == "subclass_delta" else ()):
+                                    ctx.info.setdefault("subclass_greeks_skipped_analytic_in_repo", [])
+                                    tag = f"{CLASSES[product]}.{what}"
+                                    if tag not in ctx.info["subclass_greeks_skipped_analytic_in_repo"]:
+                                        ctx.info["subclass_greeks_skipped_analytic_in_repo"].append(tag)
+                                    continue
                                 for gmode, alias in itertools.product(grad_modes, aliases):
-                                    if gmode == "no_grad" and not (entry == "module" and layout == "flat" and dname == "float64"
-                                                                   and what != "price"):
+                                    if gmode == "no_grad" and not (entry not in ("functional", "mixin", "gfd_module", "gfd_functional")
+                                                                   and layout == "flat"
+                                                                   and dname == "float64" and what != "price"):
                                         continue  # the module contract; bare functions are not required to enable grad
                                     if alias is not None and (what == "price" or layout != "flat"
                                                               or (alias[0][1] == "max_log_moneyness" and product not in NEEDS_MAX)):
@@ -315,7 +431,7 @@ def _one(ctx, G, entry, sk, layout, dname, what, idx, gmode="enable", alias=None
     site = site_name(entry, product, what)
     route = ROUTE.get((entry, product, what))
     strike = K if sk == "float" else torch.tensor(K, dtype=torch.float64).to(dtype)
-    E, TOL = G["E"][what], G["TOL"][what]
+    E, TOL = G["E"][what] * G.get("scale", 1.0), G["TOL"][what] * G.get("scale", 1.0)
     common = {"product": product, "call": call, "Ks": [K], "entries": [entry], "strike_kinds": [sk], "dtypes": [dname],
               "greeks": [what] if what != "price" else [], "grad_modes": [gmode], "aliases": [alias]}
     how = ("" if gmode == "enable" else ", inside torch.no_grad()") + \
@@ -489,18 +605,38 @@ def bs_bound(ctx, block):
     lm = deriv.log_moneyness()
     t = deriv.time_to_maturity()
     mm = deriv.max_log_moneyness() if product in NEEDS_MAX else lm
-    for what, gmode in itertools.product(block.get("greeks", list(GREEKS)), block.get("grad_modes", ["enable", "no_grad"])):
+    # which arguments the caller gives explicitly (the rest is read from the derivative's buffers):
+    #   none            everything from the buffers
+    #   lm+t            log_moneyness and time_to_maturity as full-shape tensors
+    #   scalars,max     0-dim log_moneyness / time_to_maturity / volatility, the running maximum (N, T) from the buffer
+    givens = block.get("given", ["none", "lm+t"] + (["scalars,max"] if product in NEEDS_MAX else []))
+    s0, t0 = float(lm.min()) - 0.05, 0.5
+    for what, gmode, given in itertools.product(block.get("greeks", list(GREEKS)), block.get("grad_modes", ["enable", "no_grad"]), givens):
+        if given != "none" and gmode == "no_grad":
+            continue
         site = f"BlackScholes({CLASSES[product][2:]}).{what}"
+        if given == "none":
+            kwargs = {}
+        elif given == "lm+t":
+            kwargs = {"log_moneyness": lm.clone(), "time_to_maturity": t.clone()}
+        else:
+            kwargs = {"log_moneyness": torch.tensor(s0, dtype=torch.float64), "time_to_maturity": torch.tensor(t0, dtype=torch.float64),
+                      "volatility": torch.tensor(float(sigma), dtype=torch.float64)}
         with (torch.no_grad if gmode == "no_grad" else torch.enable_grad)():
-            o = getattr(module, what)().detach()
+            o = getattr(module, what)(**kwargs).detach()
         if tuple(o.shape) != (N, T):
-            ctx.violation(site, "shape", f"shape {tuple(o.shape)} != {(N, T)}", block=block)
+            b = dict(block, greeks=[what], grad_modes=[gmode], given=[given])
+            ctx.violation(site, "shape", f"{site}(arguments given: {given}): shape {list(o.shape)} != {[N, T]} (the shape of the "
+                          f"derivative's buffers the other arguments are read from)", observed=list(o.shape), expected=[N, T], block=b)
             continue
         route = ROUTE.get(("module", product, what))
         nontriv = 0
         for i in range(N):
-            for j in range(T - 1):  # the last column has time_to_maturity = 0: outside the open domain
-                fp = (float(lm[i, j]), float(mm[i, j]), float(t[i, j]), float(sigma))
+            for j in range(T if given == "scalars,max" else T - 1):  # buffer time_to_maturity = 0 in the last column: outside the open domain
+                if given == "scalars,max":
+                    fp = (s0, float(mm[i, j]), t0, float(sigma))
+                else:
+                    fp = (float(lm[i, j]), float(mm[i, j]), float(t[i, j]), float(sigma))
                 r = model_point(product, call, *fp, K)
                 e = float(r[what])
                 tol = tolerance(product, what, *fp, K, e, torch.finfo(torch.float64).eps)
@@ -517,7 +653,8 @@ def bs_bound(ctx, block):
                     b["rows"] = [block["rows"][i] if block.get("rows") is not None else i]
                     b["greeks"] = [what]
                     b["grad_modes"] = [gmode]
-                    ctx.violation(st, cls, f"{site}(){' inside torch.no_grad()' if gmode == 'no_grad' else ''} at path {spot[i].tolist()} step {j} (s={fp[0]}, m={fp[1]}, t={fp[2]}, "
+                    b["given"] = [given]
+                    ctx.violation(st, cls, f"{site}(given: {given}){' inside torch.no_grad()' if gmode == 'no_grad' else ''} at path {spot[i].tolist()} step {j} (s={fp[0]}, m={fp[1]}, t={fp[2]}, "
                                   f"v={sigma}, K={K}) = {got!r}, derivative of the price = {e!r}",
                                   observed=got, expected=e, block=b)
         ctx.tick(N * (T - 1), nontrivial=nontriv)
@@ -977,6 +1114,24 @@ def run(ctx):
                                  "aliases": [[pair, "same"], [pair, "equal"], [pair[::-1], "same"]]})
     for b in alias_blocks:
         ctx.run("bs_greeks", b)
+    # ---- user modules: subclasses overriding price (payout multiplier), price + delta, and modules built on the mixin
+    ctx.assume("Greeks of a user subclass are checked only where the module of /repo derives them from self.price "
+               "(BSAmericanBinaryOption / BSLookbackOption gamma, vega, theta; every default Greek of BSModuleMixin); the "
+               "analytic Greeks of /repo that do not go through self.price are skipped for subclasses (listed in the "
+               "coverage as subclass_greeks_skipped_analytic_in_repo)")
+    user_blocks = []
+    sub_s = [-0.5, -0.2, -0.05, 0.05, 0.5]
+    for product in B.PRODUCTS:
+        ents = ["mixin"] + (["subclass", "subclass_delta"] if FROM_SELF_PRICE[product] else ["subclass"])
+        for call in ([True, False] if product in ("european", "european_binary") else [True]):
+            user_blocks.append({"product": product, "call": call, "Ks": [2.5] if quick else [1.0, 1.3, 2.5],
+                                "grid": {"s": sub_s, "t": t_alpha, "v": v_alpha, "m": m_alpha}, "entries": ents,
+                                "layouts": ["flat", "scalar"], "dtypes": ["float64"], "strike_kinds": ["float"]})
+    if quick:
+        for b in user_blocks:
+            ctx.run("bs_greeks", b)
+    else:
+        ctx.run_parallel("bs_greeks", user_blocks)
     # ---- bound modules
     bound = []
     for product in B.PRODUCTS:
